@@ -185,6 +185,8 @@ type c01World struct {
 	errs    []string
 	curPh   int
 	phaseOf map[int]int // publication id -> script phase of its last delivery
+	deliv   []string    // Coq frames of the messages handed to the node, in delivery order
+	delivK  []string    // the same as comparable keys (pub:<id> | join | leave)
 }
 
 func (w *c01World) fail(format string, a ...any) {
@@ -365,6 +367,20 @@ func (w *c01World) removeTok(i int) c01Tok {
 	return t
 }
 
+func (w *c01World) noteDelivery(tk c01Tok) {
+	switch tk.kind {
+	case 0:
+		w.deliv = append(w.deliv, vApp("FPub", c01CoqPub(c01Pub{Off: w.byID[tk.id].Off, Ep: w.byID[tk.id].Ep})))
+		w.delivK = append(w.delivK, fmt.Sprintf("pub:%d", tk.id))
+	case 1:
+		w.deliv = append(w.deliv, "FJoin")
+		w.delivK = append(w.delivK, "join")
+	case 2:
+		w.deliv = append(w.deliv, "FLeave")
+		w.delivK = append(w.delivK, "leave")
+	}
+}
+
 func (w *c01World) deliverNow(tk c01Tok, lag bool) {
 	if tk.kind == 0 {
 		if w.phaseOf == nil {
@@ -438,6 +454,7 @@ func (w *c01World) opDeliver(i int, lag bool) {
 	}
 	tk := w.removeTok(i)
 	w.emitL(fmt.Sprintf("(LDeliver %d%%nat %s)", i, vBool(lag)))
+	w.noteDelivery(tk)
 	willBlock := w.locked && w.sc.Pos && tk.kind == 0 && tk.pub.Offset > 0
 	done := make(chan struct{})
 	go func() { w.deliverNow(tk, lag); close(done) }()
@@ -469,6 +486,7 @@ func (w *c01World) opDeliverSplit(i int, unsub int) {
 		return
 	}
 	tk := w.removeTok(i)
+	w.noteDelivery(tk)
 	w.emitL(fmt.Sprintf("(LDeliver %d%%nat false)", i))
 	done := make(chan struct{})
 	atomic.StoreInt32(&w.armDPF, 1)
@@ -711,7 +729,10 @@ func (w *c01World) subscribe() {
 			if stage < 2 {
 				w.emitL("LHistRead")
 			}
-			if w.isSubscribed() {
+			// (server side: reaching the "log" gate means subscribeCmd succeeded; a delivery parked
+			// behind the locked buffer may already have run to an insufficient-state close by the
+			// time we look, so the channel map alone is not a reliable witness there)
+			if w.isSubscribed() || (sc.Server && stage >= 3) {
 				if !sc.Server {
 					w.emitL("LMerge")
 					w.emitL("LWriteReply")
@@ -925,7 +946,7 @@ func (w *c01World) caseTerm(frames []c01Frame) string {
 		variant = "VServer"
 	}
 	return vApp("mkCase", variant, vBool(w.sc.Pos), vBool(w.sc.Pos && w.sc.Rec), vN(w.since), vN(w.sinceEp), vBool(w.sc.JL), vBool(w.sc.Batch),
-		vList(w.sched), c01CoqFrames(frames), c01CoqPubs(w.glog))
+		vList(w.sched), c01CoqFrames(frames), c01CoqPubs(w.glog), vList(w.deliv))
 }
 
 // ---- classification helpers (for the evidence histogram and finding keys) ----
